@@ -507,7 +507,7 @@ pub fn run_c08(ctx: &Ctx) -> Finish {
         &ctx.tier,
         ctx.seed,
         "exploration",
-        "on top of a generated allocator state (random history, 1-4 trees, all classings) a generated list of invalid calls: order TREE_ORDER+1..+3; aligned blocks starting at or beyond frames-2^k+1 (first block that no longer fits and further out); frames misaligned by 1..2^k-1; class ids from the first unconfigured one up to 7; zone wrapper get/put of frames below a tree-aligned offset; construction with a metadata buffer 1..64 bytes short, shifted 1..63 bytes off alignment, or pairwise overlapping. Oracle: exactly Err(Argument) (construction: Err(Initialization)) and an identical state fingerprint (per-frame status, all tree words, stats, tree_stats, Debug dump incl. local slots) before and after. Non-trivial = case exercising at least one invalid input; distinct by case hash.",
+        "on top of a generated allocator state (random history, 1-4 trees, all classings) a generated list of invalid calls: order TREE_ORDER+1..+3; aligned blocks starting at or beyond frames-2^k+1 (first block that no longer fits and further out); frames misaligned by 1..2^k-1; class ids from the first unconfigured one up to 7; zone wrapper get/put of frames below a tree-aligned offset; construction with a metadata buffer 1..64 bytes short, shifted 1..63 bytes off alignment, or pairwise overlapping. Second phase: class lists of 1..7 distinct ids below 8 in any order (gaps, permutations, zero-slot classes) with get/put probes for all 8 ids, calls of configured classes interleaved. Oracle: exactly Err(Argument) (construction: Err(Initialization)) and an identical state fingerprint (per-frame status, all tree words, stats, tree_stats, Debug dump incl. local slots) before and after. Non-trivial = case exercising at least one invalid input; distinct by case hash.",
     );
     let w = Weights::base(3);
     let call = || {
@@ -545,10 +545,107 @@ pub fn run_c08(ctx: &Ctx) -> Finish {
     if let Some(f) = f {
         return ctx.fail(ev, "invalid", &f.case, f.msg);
     }
+    // class lists with gaps / in any order
+    let (stats, f) = run_proptest(
+        ctx.seed ^ 0x08,
+        ctx.scale(if thorough { 200_000 } else { 10_000 }),
+        || {
+            (
+                frames_strategy(3, false),
+                prop::sample::subsequence((0u8..8).collect::<Vec<_>>(), 1..=7).prop_shuffle(),
+                prop::collection::vec(prop_oneof![4 => 1usize..=3, 1 => Just(0usize)], 7),
+                any::<u16>(),
+                prop::collection::vec((0u8..8, any::<bool>(), any::<u8>(), any::<u16>(), any::<bool>(), any::<u16>()), 1..12),
+            )
+                .prop_map(|(frames, ids, slots, default, probes)| ClassIdCase {
+                    frames,
+                    classes: ids.into_iter().zip(slots).collect(),
+                    default,
+                    probes,
+                })
+                .boxed()
+        },
+        |c| verdict("C08", c08_ids_check(c)),
+    );
+    ev.stats.merge(stats);
+    if let Some(f) = f {
+        return ctx.fail(ev, "classids", &f.case, f.msg);
+    }
     ctx.pass(ev)
 }
 pub fn replay_invalid(c: &InvalidCase) -> Option<String> {
     c08_check(c).err()
+}
+
+/// Class lists whose ids are not 0..n in order (the interface takes any list of distinct ids
+/// below 8): "configured" is a matter of the ids, not of the position in the list.
+#[derive(Serialize, Deserialize, Clone, Debug, Hash, PartialEq, Eq)]
+pub struct ClassIdCase {
+    pub frames: usize,
+    /// (class id, local slots), distinct ids in list order
+    pub classes: Vec<(u8, usize)>,
+    pub default: Frac,
+    /// (class id 0..8, put, order, position, targeted, slot)
+    pub probes: Vec<(u8, bool, u8, Frac, bool, Frac)>,
+}
+
+fn c08_ids_check(c: &ClassIdCase) -> Result<(bool, Vec<&'static str>), String> {
+    let list: Vec<(Class, usize)> = c.classes.iter().map(|&(i, n)| (Class(i), n)).collect();
+    let default = list[pick(c.default, list.len())].0;
+    let classing = llfree::Classing::new(&list, default, crate::cfg::simple_policy());
+    let frames = c.frames;
+    let ms = LLFree::metadata_size(&classing, frames);
+    let bufs = Bufs::new(&ms);
+    let alloc = g("new", || LLFree::new(frames, Init::FreeAll, &classing, unsafe { bufs.meta() }))?
+        .map_err(|e| format!("[SETUP-new] {e:?}"))?;
+    let inst = Inst { alloc, bufs, classing };
+    let a = &inst.alloc;
+    let mut kinds: Vec<&'static str> = vec![];
+    let dense = c.classes.iter().enumerate().all(|(i, &(id, _))| id as usize == i);
+    for &(class, put, order, pos, targeted, slot) in &c.probes {
+        let order = order as usize % (TREE_ORDER + 1);
+        let len = 1usize << order;
+        if frames < len {
+            continue;
+        }
+        let frame = pick(pos, frames / len) * len;
+        let configured = c.classes.iter().find(|&&(i, _)| i == class).map(|&(_, n)| n);
+        match configured {
+            None => {
+                let before = g("fingerprint", || fingerprint(&inst))?;
+                let rq = Request::new(order, Class(class), None);
+                let (what, r) = if put {
+                    (format!("put(frame {frame}, order {order}, class {class})"), g("put", || a.put(FrameId(frame), rq))?)
+                } else {
+                    let t = targeted.then_some(FrameId(frame));
+                    (format!("get({t:?}, order {order}, class {class})"), g("get", || a.get(t, rq).map(|_| ()))?)
+                };
+                if r != Err(Error::Argument) {
+                    return Err(format!("[C08] class ids {:?}: {what} returned {r:?}, expected Err(Argument)", c.classes));
+                }
+                let after = g("fingerprint", || fingerprint(&inst))?;
+                if before != after {
+                    return Err(format!("[C08] class ids {:?}: rejected call {what} changed the allocator state", c.classes));
+                }
+                kinds.push(if dense { "class_not_configured" } else { "class_not_configured_sparse_ids" });
+            }
+            Some(slots) => {
+                // a configured class keeps the allocator moving between the rejected calls
+                let local = (slots > 0).then(|| pick(slot, slots));
+                let rq = Request::new(order, Class(class), local);
+                let t = targeted.then_some(FrameId(frame));
+                if let Ok((f, _)) = g("get", || a.get(t, rq))? {
+                    if put {
+                        let _ = g("put", || a.put(f, rq))?;
+                    }
+                }
+            }
+        }
+    }
+    Ok((!kinds.is_empty(), kinds))
+}
+pub fn replay_class_ids(c: &ClassIdCase) -> Option<String> {
+    c08_ids_check(c).err()
 }
 
 // =======================================================================================
